@@ -1,0 +1,59 @@
+//go:build verif
+
+package main
+
+// Verification hook for the configuration-persistence check (C16), build tag "verif" only.
+// It lets an external harness run dastard's real start-up sequence (makeFileExist, setupViper, and
+// optionally the whole of main) on a scratch $HOME and on free ports. Nothing runs unless the
+// environment variable DASTARD_VERIF_C16 is set.
+//
+//	DASTARD_VERIF_C16=settings   run setupViper() exactly as main does, print what it read as JSON, exit
+//	DASTARD_VERIF_C16=ports      set dastard.Ports from DASTARD_VERIF_C16_PORT (base), then run main as usual
+
+import (
+	"encoding/json"
+	"os"
+	"sort"
+	"strconv"
+
+	"github.com/spf13/viper"
+	"github.com/usnistgov/dastard"
+)
+
+func init() {
+	switch os.Getenv("DASTARD_VERIF_C16") {
+	case "settings":
+		var out struct {
+			Err      string
+			File     string
+			Settings map[string]interface{}
+			InConfig []string
+		}
+		if err := setupViper(); err != nil {
+			out.Err = err.Error()
+		}
+		out.File = viper.ConfigFileUsed()
+		out.Settings = viper.AllSettings()
+		for k := range out.Settings {
+			if viper.InConfig(k) {
+				out.InConfig = append(out.InConfig, k)
+			}
+		}
+		sort.Strings(out.InConfig)
+		enc := json.NewEncoder(os.Stdout)
+		if err := enc.Encode(out); err != nil {
+			os.Stdout.WriteString(`{"Err":"cannot encode settings: ` + strconv.Quote(err.Error()) + `"}` + "\n")
+		}
+		os.Exit(0)
+	case "ports":
+		base, err := strconv.Atoi(os.Getenv("DASTARD_VERIF_C16_PORT"))
+		if err != nil {
+			panic(err)
+		}
+		dastard.Ports.RPC = base
+		dastard.Ports.Status = base + 1
+		dastard.Ports.Trigs = base + 2
+		dastard.Ports.SecondaryTrigs = base + 3
+		dastard.Ports.Summaries = base + 4
+	}
+}
